@@ -40,7 +40,7 @@ def run(ctx: Ctx) -> None:
     ctx.prove([])
     rnd = ctx.rnd
     nh = ctx.n(10, 400) * (3 if ctx.broken else 1)
-    cases, raw = [], []
+    cases, raw, all_srcs = [], [], []
     scratch = scratch_cwd()
     for hidx in range(nh):
         mods = progen.gen_modules(rnd, rnd.randint(3, 5))
@@ -53,9 +53,12 @@ def run(ctx: Ctx) -> None:
         sess = tsession.Session(srcs)
         hist, obs = [], []
         nontrivial = False
+        follow = None
         for step in range(rnd.randint(3, 8)):
             k = rnd.random()
             m = rnd.randrange(len(names))
+            if follow is not None:
+                k, m, follow = .9, follow, None
             if k < .3:
                 sess.load(names[m])
                 hist.append(('load', m))
@@ -66,6 +69,9 @@ def run(ctx: Ctx) -> None:
                 hist.append(('unload', m))
                 obs.append('unit')
                 nontrivial = nontrivial or importers_loaded
+                importers = [x for x in range(len(names)) if x != m and m in import_closure(imps, x)]
+                if importers and rnd.random() < .6:
+                    follow = rnd.choice(importers)     # next: transpile a module that imports the unloaded one
             else:
                 try:
                     text = sess.transpile(names[m])
@@ -90,6 +96,7 @@ def run(ctx: Ctx) -> None:
         lsets = coq_list(coq_list(map(str, l)) for l in obs[1::2])
         cases.append(coq_pair('(%s)' % clo, ops, outs, lsets))
         raw.append(dict(imports=imps, history=hist))
+        all_srcs.append(srcs)
         # ---- isolation: loading another module changes no symbol / node class of an untouched one ----
         s2 = tsession.Session(srcs)
         a = names[0]
@@ -125,8 +132,29 @@ def run(ctx: Ctx) -> None:
                'Fixpoint sets (clo : nat -> list nat) (l : list nat) (h : list op) : list (list nat) := match h with [] => [] | o :: r => let l2 := fst (step clo (fun m => 0) (unload clo) l o) in l2 :: sets clo l2 r end.\n'
                'Definition same_set (a b : list nat) : bool := forallb (fun x => existsb (Nat.eqb x) b) a && forallb (fun x => existsb (Nat.eqb x) a) b.\n'
                'Fixpoint sseq (a b : list (list nat)) : bool := match a, b with [], [] => true | x :: a2, y :: b2 => same_set x y && sseq a2 b2 | _, _ => false end.\n')
-    ctx.correspond('modules_bookkeeping', IMPORTS, '(nat -> list nat) * list op * list out * list (list nat)',
+    all_srcs.append(None)
+    bad = ctx.correspond('modules_bookkeeping', IMPORTS, '(nat -> list nat) * list op * list out * list (list nat)',
                    'fun c => match c with (clo, h, outs, ls) => oseq (run clo (fun m => 0) (unload clo) [] h) outs && sseq (sets clo [] h) ls end', cases, raw, prelude, shard=60)
+    # focused search: replay every history on which model and implementation disagree, then transpile every module
+    for i in bad:
+        srcs = all_srcs[i]
+        names = list(srcs)
+        sess = tsession.Session(srcs)
+        for op, m in raw[i]['history']:
+            try:
+                getattr(sess, op)(names[m])
+            except Errors.Error:
+                pass
+        for n in names:
+            try:
+                ok = sess.transpile(n) == tsession.Session(srcs).transpile(n)
+                why = 'differs'
+            except Errors.Error as e:
+                ok, why = False, type(e).__name__
+            if not ok:
+                ctx.violation('history-breaks-transpile:' + why, 'after a history on which the bookkeeping model and Modules disagree, transpiling a module fails or differs from a fresh session (%s)' % why,
+                              dict(sources=srcs, history=raw[i]['history'] + [('transpile', names.index(n))], impl_result=why))
+                break
 
 
 def replay(ctx: Ctx, data: dict) -> int:
